@@ -245,6 +245,7 @@ func (c *FnCtx) heapWrite(st *State, name, valSort string, ref, val *Term) {
 	}
 	if c.log != nil {
 		c.log.heaps[name] = valSort
+		c.log.refs[name] = append(c.log.refs[name], ref)
 	}
 	newArr := mkStore(arr, ref, val)
 	if g := st.guard(); !isLit(g, "true") {
@@ -260,6 +261,7 @@ func (c *FnCtx) heapHavoc(st *State, name, valSort string) {
 	arr := c.heapArr(st, name, valSort)
 	if c.log != nil {
 		c.log.heaps[name] = valSort
+		c.log.whole[name] = true
 	}
 	fc := c.smt.freshConst(name, arr.Sort)
 	if g := st.guard(); !isLit(g, "true") {
